@@ -186,9 +186,6 @@ func sameSets(a, b xsel.NodeSet) bool {
 // RunUnion: union laws on caller-built node-sets (unsorted, with duplicates).
 func RunUnion() {
 	o := hx.GenOpts{MaxEvents: 3, MaxDepth: 2, Attrs: 1, Other: true}
-	if nd.Tier() > 0 {
-		o.MaxEvents = 4
-	}
 	b := hx.Gen(o)
 	nd.Assert(b.TieOK, "store-mirrors-script")
 	nd.Assume(len(b.Doc.Nodes) >= 2)
